@@ -420,13 +420,18 @@ def poolOf (pools : List (String × List String)) (td : String) : Option (List S
 
 def generalPool (pools : List (String × List String)) : List String := pools.flatMap (·.2)
 
+/-- `url.URL.String()` of a parsed URI SAN as far as it matters here: the scheme (up to the first
+    ':') comes back in lower case; nothing else of the URIs the harness generates changes. -/
+def urlString (u : String) : String :=
+  String.ofList ((u.toList.takeWhile (· ≠ ':')).map lowerAscii ++ u.toList.dropWhile (· ≠ ':'))
+
 /-- `PeerCertVerifier.VerifyPeerCert` for a peer that presented a certificate: exactly one URI SAN,
-    it parses as a SPIFFE identity, its trust domain has a pool, the leaf verifies against THAT pool
-    (default key usage of `Verify`: server authentication). -/
+    `peerCert.URIs[0].String()` parses as a SPIFFE identity, its trust domain has a pool, the leaf
+    verifies against THAT pool (default key usage of `Verify`: server authentication). -/
 def verifyPeerCert (pools : List (String × List String)) (leaf : PLeaf) (ints : List CACert) : Bool :=
   match leaf.uris with
   | [u] =>
-    match parseIdentity u with
+    match parseIdentity (urlString u) with
     | none => false
     | some (td, _, _) =>
       match poolOf pools td with
